@@ -446,4 +446,24 @@ theorem apply_local (w w' : List Inst) (op : Op) (h : w[op.target]? = w'[op.targ
       have hi' := (List.getElem?_eq_some_iff.mp h').1
       simp [hi, hi']
 
+/-- the records of `k` successive calls, call by call -/
+theorem entriesN_eq_flatMap (k : Nat) (i : Inst) :
+    entriesN k i = (List.range k).flatMap (fun j => (callStep (stepN j i) []).2.1) := by
+  induction k generalizing i with
+  | zero => rfl
+  | succ k ih =>
+    rw [List.range_succ_eq_map, List.flatMap_cons, List.flatMap_map, entriesN, ih]
+    rfl
+
+/-- every body of the `j`-th of successive calls sees the counter after `j + 1` increments -/
+theorem callStep_stepN_steps (j : Nat) (i : Inst) : ∀ e ∈ (callStep (stepN j i) []).2.1, e.steps = i.steps + j + 1 := by
+  intro e he
+  have := runChain_steps (stepN j i).hier 0 [] ((stepN j i).steps + 1) e he
+  rw [this, stepN_steps]
+
+/-- whether an operation returns depends on its own instance alone -/
+theorem returns_local (w w' : List Inst) (op : Op) (h : w[op.target]? = w'[op.target]?) : op.returns w = op.returns w' := by
+  cases op <;> simp only [Op.returns, Op.target] at h ⊢
+  rw [h]
+
 end Mesa.Steps
